@@ -215,6 +215,13 @@ func runOnce(sc scenario) (outcome, error) {
 		dropChild()
 		return o, fmt.Errorf("process no longer serves new connections after the scenario: %s", pr.Err)
 	}
+	// (2b): the services the scenario talked to still serve well-formed new connections
+	if err := checkHealth(c, sc); err != nil {
+		if !isInfra(err) {
+			dropChild()
+		}
+		return o, err
+	}
 	// (3): idle growth - the client is silent now
 	m1, err := c.Do(svc.Request{Op: "mem"}, 30*time.Second)
 	if err != nil {
@@ -386,7 +393,14 @@ func TestScenarios(t *testing.T) {
 		}
 		return
 	}
-	r.Rule("24 director-less services in one lab child process running the real server; per case one service x {grammar dialogue, mutated dialogue (truncate, delete/duplicate/swap unit, bit flip, insert, boundary length fields, splice, 5-60x repeat), raw bytes with protocol magics} x segmentation {per unit, single write, random cuts, 1-byte dribble} x 1..4 concurrent connections to the same service instance with a drawn step interleaving, ended by close or reset; ssh also through a real ssh client with generated channel/request payloads (incl. 1-3 byte and oversized length prefixes); oracle = child alive (no panic:/fatal error: banner, no signal), echo probe served, heap not growing while the client is silent; recovered per-connection panics are allowed; non-trivial = the service accepted at least one unit beyond its greeting (>=1 event or reply); distinct by scenario")
+	r.Rule("24 director-less services in one lab child process running the real server; per case one service x {grammar dialogue, mutated dialogue (truncate, delete/duplicate/swap unit, bit flip, insert, boundary length fields, splice, 5-60x repeat), raw bytes with protocol magics} x segmentation {per unit, single write, random cuts, 1-byte dribble} x 1..4 concurrent connections to the same service instance with a drawn step interleaving, ended by close or reset; ssh also through a real ssh client with generated channel/request payloads (incl. 1-3 byte and oversized length prefixes); oracle = child alive (no panic:/fatal error: banner, no signal), echo probe served, the services used by the scenario still serve reference dialogues on new connections like a fresh process (>= half its reply bytes and events), heap not growing while the client is silent; recovered per-connection panics are allowed; non-trivial = the service accepted at least one unit beyond its greeting (>=1 event or reply); distinct by scenario")
+	if refs, err := healthBaselines(); err == nil {
+		var parts []string
+		for _, s := range svc.AllServices {
+			parts = append(parts, fmt.Sprintf("%s:%d", s, len(refs[s])))
+		}
+		r.Note("reference dialogues per service (kept when a fresh process answers them): %s", strings.Join(parts, " "))
+	}
 	r.Rapid(t, "TestScenarios", r.Pick(450, 8000), func(rt *rapid.T) {
 		sc := genScenario(rt)
 		if id := excluded(r, sc); id != "" {
